@@ -28,6 +28,20 @@ the allocator:
 A raised DiagnosticException (OutOfRegisters, "Cannot allocate registers to the same register") is the outcome
 "reported-failure".  Inputs whose own pre-allocated registers already conflict (detected by running the same
 machine on the input, looking at pre-allocated registers only) are skipped and counted.
+
+Program space (see `configs`): op sequences of length <= 4 (quick) / <= 5 (thorough) over {li 0, li 5, li into a
+pre-allocated register, get_register (unallocated / pre-allocated), mv, addi, add (operands x <= y), mul (x > y),
+fcvt.s.w / fmv.s / fadd.s, riscv_scf.for with one loop-carried value and a body of 1-2 ops}, every operand wiring
+over earlier values and 0-2 function arguments (unallocated or a0/a1), every return-operand subset up to the
+configured size; x86: {di.mov (unallocated / rax), get_register, ds.mov (unallocated / rax), r.inc, ri.add,
+rs.add (two-address), ss.cmp} with 0-2 arguments (unallocated or rdi/rsi).  Pools: the first 2, 3, 4 registers of
+(t0, a0, t1, a1) / (rax, rdi, rcx, rsi), plus the passes with their default pools and the infinite-register options.
+
+Signatures name the cause class so that different defects stay apart: `...|clobbered-live-value|<class>` and
+`...|two-live-values-share-register[|<class>]` where <class> is `register-of-unused-get_register` (the shared
+register is pre-allocated in the input, but only to unused get_register results), `preallocated-register-reused`,
+`loop|...` (programs with a riscv_scf.for: which value was read / which pair collided), or the kind of the op that
+overwrote the register.
 """
 from __future__ import annotations
 
@@ -78,7 +92,7 @@ def _attr_key(op):
 
     if op.name == "riscv_scf.for":
         a = op.properties.get("step_attr")
-        return "dyn" if a is None else f"static:{a}"
+        return "dyn" if a is None else f"static:{a.value.data}"
     a = op.attributes.get("immediate")
     if a is None:
         a = op.properties.get("immediate")
@@ -149,6 +163,8 @@ class Run:
         self.getreg: dict = {}
         self.sinks: list = []
         self.reads = 0
+        self.fixed_trips = False
+        self.exit_ev = None
         bargs, ops = struct
         self.ev = -1
         for n, a in enumerate(bargs):
@@ -186,7 +202,7 @@ class Run:
         else:
             got, writer = self.R.get(reg, (("init", reg), "entry"))
         if got != term:
-            self.mism.append({"reader": opname, "operand": slot, "value": vid, "register": reg,
+            self.mism.append({"event": self.ev, "reader": opname, "operand": slot, "value": vid, "register": reg,
                               "expected": term, "found": got, "written_by": writer})
         return term
 
@@ -263,9 +279,13 @@ class Run:
         yops = bops[-1][2]
         # entry: mv iv, lb ; bge iv, ub
         tlb = self.read(lb, name, "lb")
-        self.read(ub, name, "ub")
-        if dyn:
-            self.read(step, name, "step")
+        tub = self.read(ub, name, "ub")
+        tstep = self.read(step, name, "step") if dyn else ("c", int(key.split(":")[1]))
+        # iterations: K, unless the trip count is a compile-time fact (then only that path exists)
+        trips = _trip_count(tlb, tub, tstep)
+        iters = self.K if trips is None else min(trips, 2)
+        if trips is not None:
+            self.fixed_trips = True
         for n, v in enumerate(inits):
             self.read(v, name, f"iter_arg{n}")
         if self.strict:
@@ -278,7 +298,7 @@ class Run:
         for c, i0 in zip(carried, inits):
             self.alias(c, self.cur[i0], "for.carried")
         self.ev += 1
-        for _ in range(self.K):
+        for _ in range(iters):
             self.block(bops)            # ends with the yield (reads its operands)
             ysrc = [self.cur[y] for y in yops]
             tiv = self.read(iv, name, "iv")
@@ -286,7 +306,7 @@ class Run:
                 tst = self.read(step, name, "step")
                 t = ("riscv.add", None, tiv, tst)
             else:
-                t = ("riscv.addi", key, tiv)
+                t = ("riscv.addi", tstep[1], tiv)
             i = self.mk(iv, t, "for.iv")
             self.write(i, self.regs[iv], "for.step-iv")
             self.ev += 1
@@ -295,6 +315,8 @@ class Run:
             self.ev += 1
             for c, s in zip(carried, ysrc):
                 self.alias(c, s, "for.carried")
+        if trips is not None and trips > iters and self.exit_ev is None:
+            self.exit_ev = self.ev      # the loop really goes on: what follows is only a prefix-consistent guess
         for r, c in zip(results, carried):
             self.alias(r, self.cur[c], "for.result")
 
@@ -320,9 +342,47 @@ class Run:
                     b = self.insts[lst[y]]
                     if a[1] == b[1] or (self.pre[a[0]] and self.pre[b[0]]):
                         continue
+                    if self.exit_ev is not None and b[4] >= self.exit_ev:
+                        continue
                     if b[4] < a[5]:       # b is defined while a still has a read to come
                         out.append(("share", lst[x], lst[y]))
         return out
+
+
+def _const(t):
+    """Integer value of a term made of constants only, else None."""
+    if t[0] == "c":
+        return t[1] if isinstance(t[1], int) else None
+    if t[0] in ("riscv.add", "riscv.mul"):
+        a, b = _const(t[2]), _const(t[3])
+        if a is None or b is None:
+            return None
+        return a + b if t[0] == "riscv.add" else a * b
+    if t[0] == "riscv.addi":
+        a = _const(t[2])
+        return None if a is None or not isinstance(t[1], int) else a + t[1]
+    return None
+
+
+def _trip_count(tlb, tub, tstep):
+    """Number of iterations of `iv = lb; if iv < ub: do body; iv += step while iv < ub` when it is a compile-time
+    fact (capped at 3), else None."""
+    if tlb == tub:
+        return 0
+    lb, ub, step = _const(tlb), _const(tub), _const(tstep)
+    if lb is None or ub is None:
+        return None
+    if lb >= ub:
+        return 0
+    if step is None:
+        return None
+    n, iv = 0, lb
+    while n < 3:
+        n += 1
+        iv += step
+        if iv >= ub:
+            break
+    return n
 
 
 def _term_str(t, depth=0):
@@ -452,6 +512,8 @@ def judge(target, strategy, s_before, regs_before, s_after, regs_after, allowed,
             out.append((sig, f"{tie[0]}: registers that must be one register are {tie[1:]}", {"K": K}))
         # ---- (3)
         for m in run.mism:
+            if run.exit_ev is not None and m["event"] >= run.exit_ev:
+                continue
             wr = m["written_by"]
             inout = target == "x86" and (SEM.get(wr, (None, None))[1] is not None
                                          or SEM.get(m["reader"], (None, None))[1] is not None)
@@ -492,6 +554,8 @@ def judge(target, strategy, s_before, regs_before, s_after, regs_after, allowed,
             if ref.sinks != run.sinks and not run.mism:
                 out.append((f"C19|{target}|results-differ-after-restructuring",
                             "the allocator changed the operations and the values read at the end differ", {"K": K}))
+        if run.fixed_trips:
+            break           # the trip count is a compile-time fact: there is only this one execution
     return out, evals
 
 
@@ -499,8 +563,11 @@ def input_conflict(struct, regs, zero):
     """True when the input's own pre-allocated registers already clobber each other."""
     pre = [r is not None for r in regs]
     for K in ((0, 1, 2) if _has_for(struct) else (0,)):
-        if Run(struct, regs, pre, K, zero, False, None).mism:
+        run = Run(struct, regs, pre, K, zero, False, None)
+        if run.mism:
             return True
+        if run.fixed_trips:
+            break
     return False
 
 
@@ -514,7 +581,6 @@ X86_TIED = {"add": True, "imul": True, "inc": True, "addi": True}
 def x86_inout_ok(ops):
     """Backward liveness over the straight-line tuple program."""
     live: set = set()
-    nargs_plus = None
     for pos in range(len(ops) - 1, -1, -1):
         op = ops[pos]
         k = op[0]
@@ -1059,19 +1125,26 @@ def _selftest():
     bad, _ = judge("riscv", "S", s, ["a0", None, None], s, ["t0", "t1", "t1"], {"t0", "t1"}, False, RV_RESERVED,
                    "zero")
     assert "C19|riscv|preallocated-changed" in {b[0] for b in bad}, bad
-    # loop: %0 = li 5 ; %4 = for %1 = %0 to %0 step %0 iter_args(%2 = %0) { %3 = addi %2 ; yield %3 } ; return %4
-    body = ((1, 2), (("riscv.addi", 1, (2,), (3,), None), ("riscv_scf.yield", None, (3,), (), None)))
-    lops = (("rv32.li", 5, (), (0,), None), ("riscv_scf.for", "dyn", (0, 0, 0, 0), (4,), body),
-            ("riscv_func.return", None, (4,), (), None))
+    # loop: %0 = li 5 ; %1 = get_register ; %5 = for %2 = %0 to %1 step %1 iter_args(%3 = %1) { %4 = addi %3 ;
+    # yield %4 } ; return %5
+    body = ((2, 3), (("riscv.addi", 1, (3,), (4,), None), ("riscv_scf.yield", None, (4,), (), None)))
+    lops = (("rv32.li", 5, (), (0,), None), ("rv32.get_register", None, (), (1,), None),
+            ("riscv_scf.for", "dyn", (0, 1, 1, 1), (5,), body), ("riscv_func.return", None, (5,), (), None))
     ls = ((), lops)
-    n5 = [None] * 5
-    # step/ub (%0) share t0 with the carried value: clobbered in the first iteration
-    bad, _ = judge("riscv", "S", ls, n5, ls, ["t0", "t1", "t0", "t0", "t0"], {"t0", "t1", "t2"}, False,
-                   RV_RESERVED, "zero")
+    n6 = [None] * 6
+    pool = {"t0", "t1", "t2", "t3"}
+    # ub/step (%1) share t0 with the carried value: clobbered in the first iteration
+    bad, _ = judge("riscv", "S", ls, n6, ls, ["t1", "t0", "t2", "t0", "t0", "t0"], pool, False, RV_RESERVED, "zero")
     assert any("clobbered" in b[0] for b in bad) and any("share-register|loop|" in b[0] for b in bad), bad
-    good, _ = judge("riscv", "S", ls, n5, ls, ["t0", "t1", "t2", "t2", "t2"], {"t0", "t1", "t2"}, False,
-                    RV_RESERVED, "zero")
-    assert any("loop-carried-registers-differ" in b[0] for b in good), good   # init %0 in t0, carried in t2
+    good, _ = judge("riscv", "S", ls, n6, ls, ["t1", "t0", "t2", "t3", "t3", "t3"], pool, False, RV_RESERVED, "zero")
+    assert any("loop-carried-registers-differ" in b[0] for b in good), good   # init %1 in t0, carried in t3
+    # the same loop with lb = ub (never runs): nothing to report although the registers collide in the body
+    lops0 = (lops[0], lops[1], ("riscv_scf.for", "dyn", (1, 1, 1, 1), (5,), body), lops[3])
+    ok, _ = judge("riscv", "S", ((), lops0), n6, ((), lops0), ["t1", "t0", "t2", "t0", "t0", "t0"], pool, False,
+                  RV_RESERVED, "zero")
+    assert not ok, ok
+    assert _trip_count(("c", 5), ("riscv.add", None, ("c", 5), ("c", 5)), ("c", 5)) == 1
+    assert _trip_count(("c", 5), ("c", 10), ("c", 1)) == 3 and _trip_count(("c", 5), ("arg", 0), ("c", 1)) is None
     # x86: %0 = imm ; %1 = imm ; %2 = rs.add %0, %1 ; cmp %2, %1
     xops = (("x86.di.mov", 5, (), (0,), None), ("x86.di.mov", 5, (), (1,), None),
             ("x86.rs.add", None, (0, 1), (2,), None), ("x86.ss.cmp", None, (2, 1), (3,), None))
